@@ -365,9 +365,9 @@ class AbstractExcelInPython(ABC):
         result = 0
         range_, sum_range = self._flatten_list(range_), self._flatten_list(sum_range)
         for i in range(len(range_)):
-            if i < len(sum_range) and criteria(range_[i]) and not isinstance(sum_range[i], str):
-                # a text in the sum range adds nothing
-                result += sum_range[i] or 0
+            if i < len(sum_range) and criteria(range_[i]) and isinstance(sum_range[i], (int, float)):
+                # only numbers are added up: a text, a date or a time of day in the sum range adds nothing (as in SUM and SUMIFS)
+                result += sum_range[i]
 
         return result
 
